@@ -670,3 +670,80 @@ def summary_coq(ex, top, events):
 
 COQ_HEADER = ("From Aranya Require Import model.VmBase gen.GenVm model.Vm model.Lang model.Typing model.Compile model.CompileRun base.Harness.\n"
               "Open Scope string_scope.\n")
+
+
+# ---------------------------------------------------------------- running both sides
+
+def run_harness(vlib, binp, lines):
+    rc, out, err = vlib.run_bin(binp, input="".join(l + "\n" for l in lines), timeout=1800)
+    res = out.splitlines()
+    if rc != 0 or len(res) != len(lines):
+        return None, (out[-500:] + err[-1500:])
+    return res, ""
+
+
+def compile_line(pol):
+    return "C " + policy_text(pol).encode().hex()
+
+
+def run_line(pol, kind, name, fail_at, args, facts=None):
+    a = ";".join(val_text(x) for x in args) or "-"
+    f = "-"
+    if facts:
+        f = ";".join("%s/%s" % (val_text(('T', n, dict(k))), val_text(('T', n, dict(v)))) for (n, k, v) in facts)
+    return "R %s %s %s %d %s %s" % (policy_text(pol).encode().hex(), kind, name, fail_at, a, f)
+
+
+def coq_mismatches(vlib, ctx, name, header, items, render, shard, jobs=4):
+    """evaluate `render(chunk)` files; returns (list of mismatching global indices, error text or None)"""
+    n = max(1, (len(items) + jobs - 1) // jobs)
+    shard = max(shard, n) if len(items) > shard * jobs else shard
+    outs, chunks = vlib.coq_eval_sharded(ctx, name, header, items, render, shard=shard)
+    mism, base = [], 0
+    for (rc, o), ch in zip(outs, chunks):
+        v = vlib.parse_coq_value(o) if rc == 0 else None
+        if v is None:
+            return None, o[-3000:]
+        mism += [base + j for j in v]
+        base += len(ch)
+    return mism, None
+
+
+def l1_render(chunk):
+    """chunk: [(policy, harness compile line result)]"""
+    items = ["(%s, %s)" % (cq_policy(p), module_coq(l)) for (p, l) in chunk]
+    return ("Definition cases : list (policy * ((list Instruction * list (Label * N)) + string)) := %s.\n"
+            "Eval vm_compute in (mismatches (fun c => l1_agree (fst c) true (snd c)) cases).\n" % cq_list(items))
+
+
+def l3_fn_render(chunk):
+    """chunk: [(policy, args, fail_at, (exit, top, log))]; a policy shared by several cases is defined once"""
+    names, defs, items = {}, [], []
+    for (p, args, fa, (ex, top, log)) in chunk:
+        if id(p) not in names:
+            names[id(p)] = "pol%d" % len(names)
+            defs.append("Definition %s : policy := %s.\n" % (names[id(p)], cq_policy(p)))
+        items.append("(%s, %s, %d%%N, %s)" % (names[id(p)], cq_list(args, val_coq), fa, summary_coq(ex, top if ex == 'normal' else None, log)))
+    return ("".join(defs) + "Definition cases : list (policy * list Value * N * summary) := %s.\n"
+            "Eval vm_compute in (mismatches (fun c => let '(p, args, fa, s) := c in "
+            "summary_eqb (l3_function p true \"main\" args fa) s) cases).\n" % cq_list(items))
+
+
+def count_nodes(x):
+    if isinstance(x, (list, tuple)):
+        return 1 + sum(count_nodes(c) for c in x)
+    if isinstance(x, dict):
+        return sum(count_nodes(c) for c in x.values())
+    return 0
+
+
+def constructs(x, acc):
+    if isinstance(x, tuple) and x and isinstance(x[0], str) and len(x[0]) > 1 and x[0][0] in 'ESPL' and x[0][1].isupper():
+        acc[x[0]] = acc.get(x[0], 0) + 1
+    if isinstance(x, (list, tuple)):
+        for c in x:
+            constructs(c, acc)
+    elif isinstance(x, dict):
+        for c in x.values():
+            constructs(c, acc)
+    return acc
